@@ -15,7 +15,7 @@ def run(ctx):
     ctx.suites_run.append(oracles.SUITE)
     rng = ctx.rng
     n = 16 if not ctx.thorough else 80
-    ctx.rule("all exported optimizers × continuous tasks and low-cardinality discrete / binary tasks (identical individuals occur) × population 1×/1.5×/2×/3× the documented scale (+0/+1/+3/+7 agents: sizes that are not multiples of group counts) × one algorithm parameter moved inside its validator range in half of the runs (plus a systematic sweep: every accepted candidate value of every algorithm parameter once) × cycle budgets 1..6 × seeds; two runs per class on an instance that first ran under another population size and was then re-configured through set_config_parameters × serial/thread/process with 1..16 workers: "
+    ctx.rule("all exported optimizers × continuous tasks and low-cardinality discrete / binary tasks (identical individuals occur) × population 1×/1.5×/2×/3× the documented scale (+0/+1/+3/+7 agents: sizes that are not multiples of group counts) × one algorithm parameter moved inside its validator range in half of the runs (plus a systematic sweep: every accepted candidate value of every algorithm parameter once) × cycle budgets 1..6 × seeds; for the group-cutting classes every accepted value 2..10 of every integer parameter × 4 population sizes; two runs per class on an instance that first ran under another population size and was then re-configured through set_config_parameters × serial/thread/process with 1..16 workers: "
              "len(generation) for every generation; a case = one run; non-trivial = ≥ 2 generations")
     js = jobs.make_jobs(rng, optimizers.names(), ["cont-sym", "cont", "cont-zero", "cont-scalars", "disc", "binary", "disc"], n,
                         modes=("serial", "serial", "thread", "process") if not ctx.thorough else ("serial", "thread", "process"),
@@ -32,6 +32,34 @@ def run(ctx):
             js.append({"name": name, "kind": "cont-sym", "specs": trace.task_specs(rng, "cont-sym", 3), "objective": "sphere", "minmax": "min", "seed": rng.randrange(1, 10 ** 6),
                        "cfg": {"max_cycles": 3, "fitness_error": None, "population_size": to}, "reconfigure_from": {"max_cycles": 2, "fitness_error": None, "population_size": frm},
                        "mode": "serial", "trace": False})
+    # classes that cut the population into groups (`_generate_group_population`): every accepted group-count / group-size value 2..10 of every integer
+    # parameter × population sizes that are and are not multiples of it (left-overs of 0, 1, and of more than one whole group)
+    import inspect
+    import sys as _sys
+    import pyvolutionary as _pv
+    for name in optimizers.names():
+        cls = optimizers.OPTS[name]
+        try:
+            src = inspect.getsource(_sys.modules[cls.__module__])
+        except Exception:  # noqa
+            continue
+        if "_generate_group_population" not in src:
+            continue
+        cname, d = optimizers.CFGS[name]
+        ccls = getattr(_pv, cname)
+        base = d["population_size"]
+        for k, v in d.items():
+            if k in optimizers.BASE_KEYS or isinstance(v, bool) or not isinstance(v, int):
+                continue
+            for val in range(2, 11):
+                for ps in (base, base + 1, base + 4, max(val + 1, base - 5)):
+                    dd = dict(d, **{k: val, "population_size": ps})
+                    try:
+                        ccls(**dd)
+                    except Exception:  # noqa — rejected by the validators
+                        continue
+                    js.append({"name": name, "kind": "cont-sym", "specs": trace.task_specs(rng, "cont-sym", 2), "objective": "sphere", "minmax": "min", "seed": rng.randrange(1, 10 ** 6),
+                               "cfg": {"max_cycles": 2, "fitness_error": None, k: val, "population_size": ps}, "mode": "serial", "trace": False})
     for j in js:
         if j["mode"] != "serial":
             j["workers"] = rng.choice([1, 2, 3, 4, 8, 16])
